@@ -565,4 +565,130 @@ theorem iluSolveLoc_spec (lower : Bool) (A : CRS K) (Dv : Vec K) (T : List (List
 
 end sweeps
 
+/-! ### shape of the tables, the counters of step 3, one task run without interruption -/
+section shape
+set_option linter.unusedSectionVars false
+variable {K : Type} [Zero K]
+
+/-- sizes and end points of the thread-local arrays -/
+theorem locSpec_shape (A : CRS K) (hasD : Bool) (Dv : Vec K) (ts : List (List Nat)) :
+    let L := locSpec A hasD Dv ts
+    L.ord = ts.flatten.toArray ∧ L.tasks = localTasks ts
+    ∧ L.ptr.size = ts.flatten.length + 1 ∧ L.ptr.getD 0 0 = 0 ∧ L.ptr.getD ts.flatten.length 0 = L.col.size
+    ∧ L.col.size = L.val.size ∧ L.D.size = (if hasD then ts.flatten.length else 0) := by
+  refine ⟨rfl, rfl, locState_ptr_size _ _ _ _ _, ?_, ?_, ?_, ?_⟩
+  · show (locPtr A ts.flatten).toArray.getD 0 0 = 0
+    rw [locPtr_getD A _ 0 (by omega)]; simp [locEntries]
+  · show (locPtr A ts.flatten).toArray.getD ts.flatten.length 0 = ((locEntries A ts.flatten).map Prod.fst).toArray.size
+    rw [locPtr_getD A _ _ (Nat.le_refl _), List.take_length]
+    generalize ts.flatten = is
+    simp
+  · show ((locEntries A ts.flatten).map Prod.fst).toArray.size = ((locEntries A ts.flatten).map Prod.snd).toArray.size
+    simp
+  · show (if hasD then (ts.flatten.map fun i => Dv.getD i 0).toArray else #[]).size = _
+    generalize ts.flatten = is
+    cases hasD <;> simp
+
+theorem locSpec_ptr_succ (A : CRS K) (hasD : Bool) (Dv : Vec K) (ts : List (List Nat)) (r : Nat)
+    (h : r < ts.flatten.length) :
+    (locSpec A hasD Dv ts).ptr.getD (r + 1) 0
+      = (locSpec A hasD Dv ts).ptr.getD r 0 + (A.row ((locSpec A hasD Dv ts).ord.getD r 0)).length := by
+  unfold locSpec
+  rw [locState_ptr_succ A hasD Dv _ _ r h]
+  congr 3
+  exact (toArray_getD _ _ _).symm
+
+theorem entries_fold (A : CRS K) (f : Nat → Nat) (l : List Nat) (c0 : Nat) :
+    l.foldl (fun c k => c + (A.row (f k)).length) c0 = c0 + (locEntries A (l.map f)).length := by
+  induction l generalizing c0 with
+  | nil => simp [locEntries]
+  | cons a t ih =>
+    rw [List.foldl_cons, ih]
+    simp [locEntries, Nat.add_assoc]
+
+theorem threadCounts_fold (A : CRS K) (order : Array Nat) (tasks : List (Nat × Nat)) (r0 c0 : Nat) :
+    tasks.foldl (fun (rc : Nat × Nat) t =>
+      (rc.1 + (t.2 - t.1),
+       (List.range (t.2 - t.1)).foldl (fun c k => c + (A.row (order.getD (t.1 + k) 0)).length) rc.2)) (r0, c0)
+      = (r0 + (tasks.map (taskRowsLit order)).flatten.length,
+         c0 + (locEntries A (tasks.map (taskRowsLit order)).flatten).length) := by
+  induction tasks generalizing r0 c0 with
+  | nil => simp [locEntries]
+  | cons t rest ih =>
+    rw [List.foldl_cons, ih, entries_fold A (fun k => order.getD (t.1 + k) 0)]
+    simp [taskRowsLit, locEntries, Nat.add_assoc]
+
+/-- **the counters of step 3 are the final sizes of step 4** (`reserve` is exact) -/
+theorem threadCounts_eq (A : CRS K) (hasD : Bool) (Dv : Vec K) (order : Array Nat) (tasks : List (Nat × Nat)) :
+    threadCounts A order tasks
+      = ((locFill A hasD Dv order tasks).ord.size, (locFill A hasD Dv order tasks).col.size) := by
+  unfold threadCounts
+  rw [threadCounts_fold, locFill_eq]
+  simp [locSpec, locState]
+
+theorem constructorLit_length (ln : Array Nat × Nat) (nt : Nat) : (constructorLit ln nt).length = nt := by
+  simp [constructorLit, scheduleLitN, tasksLit]
+
+theorem constructorLit_getD_length (ln : Array Nat × Nat) (nt tid : Nat) (h : tid < nt) :
+    ((constructorLit ln nt).getD tid []).length = ln.2 := by
+  unfold constructorLit scheduleLitN tasksLit
+  rw [List.map_map, getD_map_range _ _ _ _ h]
+  simp
+
+theorem tasks_getD_length (level : Array Nat) (nt tid : Nat) (h : tid < nt) :
+    ((tasks level nt).getD tid []).length = nlev level := by
+  unfold tasks
+  rw [getD_map_range _ _ _ _ h]
+  simp
+
+theorem localTasks_getD_mem (ts : List (List Nat)) (lev : Nat) (h : lev < ts.length) :
+    (localTasks ts).getD lev (0, 0) ∈ localTasks ts := by
+  rw [List.getD_eq_getElem?_getD, List.getElem?_eq_getElem (by rw [localTasks_length]; exact h)]
+  exact List.getElem_mem _
+
+theorem locTaskRows_lt (t : Nat × Nat) (r : Nat) (hr : r ∈ locTaskRows t) : t.1 ≤ r ∧ r < t.2 := by
+  unfold locTaskRows at hr
+  obtain ⟨k, hk, rfl⟩ := List.mem_map.mp hr
+  have := List.mem_range.mp hk
+  omega
+
+end shape
+
+section taskrun
+set_option linter.unusedSectionVars false
+variable {K : Type} [Add K] [Mul K] [Sub K] [Zero K] [One K] [Div K]
+
+/-- **Gauss–Seidel: a task run on the thread-local arrays performs the row updates of `A` for the rows of the task,
+in order** -/
+theorem gsLocTask_spec (A : CRS K) (rhs : Vec K) (ts : List (List Nat)) (lev : Nat) (h : lev < ts.length) (x : Vec K) :
+    gsLocTask (locSpec A false #[] ts) rhs x ((localTasks ts).getD lev (0, 0))
+      = runRows (gsRow A rhs) (ts.getD lev []) x := by
+  unfold gsLocTask runRows
+  have hb := localTasks_bounds ts _ (localTasks_getD_mem ts lev h)
+  rw [← locSpec_task_rows ts lev h, List.foldl_map]
+  apply foldl_congr_mem
+  intro x r hr
+  have hr' := locTaskRows_lt _ r hr
+  rw [gsLocRow_eq A _ rhs x r (locSpec_row A false #[] ts r (by omega))]
+  congr 1
+  exact toArray_getD _ _ _
+
+theorem iluLocTask_spec (lower : Bool) (A : CRS K) (Dv : Vec K) (ts : List (List Nat)) (lev : Nat)
+    (h : lev < ts.length) (x : Vec K) :
+    iluLocTask lower (locSpec A (!lower) Dv ts) x ((localTasks ts).getD lev (0, 0))
+      = runRows (iluRow lower A Dv) (ts.getD lev []) x := by
+  unfold iluLocTask runRows
+  have hb := localTasks_bounds ts _ (localTasks_getD_mem ts lev h)
+  rw [← locSpec_task_rows ts lev h, List.foldl_map]
+  apply foldl_congr_mem
+  intro x r hr
+  have hr' := locTaskRows_lt _ r hr
+  have hlt : r < ts.flatten.length := by omega
+  rw [iluLocRow_eq lower A Dv _ x r (locSpec_row A (!lower) Dv ts r hlt)
+    (by intro hl; subst hl; exact locSpec_D A Dv ts r hlt)]
+  congr 1
+  exact toArray_getD _ _ _
+
+end taskrun
+
 end Amgcl.Sched
